@@ -11,14 +11,20 @@ linearising bracket are compared with the model's. Reply: `ok` or `reject <why>`
 
 ```
 lim <n> <0|1>                   start of a trace: configured limit; is a finished token left in the channel?
-new <tid> <cls> <var> <nil> <zd> task attributes (tid = 0,1,2,…; zd = 1: called with max delay 0)
-t <tid> nilret | submit <m|l> | hinc <cnt> | tmoenq <cnt> | tmowait | begin | moddec <out> | dec <cnt>
-        | tok <0|1> | ret <code> | doneagain
+                                (all modules are online, their counters zero)
+new <tid> <cls> <var> <nil> <zd> <mod>  task attributes (tid = 0,1,2,…; zd = 1: called with max delay 0; mod = its module)
+t <tid> nilret | submit <m|l> | hinc <cnt> | tmoenq <cnt> | tmowait | begin <modcnt> | moddec <out> <modcnt>
+        | stopchk | dec <cnt> | tok <0|1> | ret <code> | doneagain
+m <mod> stop | flag | mcheck <0|1> | wake | timeout <modcnt> | offline | start
+                                steps of the stop protocol of one module (`MSt`); mcheck: a checkIfStopComplete got
+                                as far as the microtask counter and found it passing (1) or not (0); modcnt = value
+                                of that module's counter, read under the linearising bracket
+q <cnt> <m0,m1,…>               mid-trace quiescence: everything submitted so far finished; observed counters
 s space <cnt> <lim> | full <cnt> <lim> | shut | grant <tid> | count <cnt> | other | woken | tick
 shutdown
 scn … / h …                     scenario description and harness observations: not model events, answered `ok`
 setmax <n>                      pure glue: the limit `SetMaxConcurrentMicroTasks n` configures
-end <cnt> <mods>                all calls returned and the scheduler settled: observed counters
+end <cnt> <mods> <m0,m1,…>      all calls returned and the scheduler settled: observed counters (sum and per module)
 ```
 -/
 namespace PB.Drv.C15
@@ -30,8 +36,33 @@ structure Drv where
   held : Option Nat     -- task whose request the scheduler holds or has closed and not yet counted
   antic : Bool          -- a `wakeToken` was inferred from a successful token send; the `woken` event is still to come
   started : Bool
+  ms : Array MSt        -- every module of the trace is followed individually
+  tm : Array Nat        -- task → module
 
-def Drv.init : Drv := { g := PB.MicroTasks.init 0, ts := #[], held := none, antic := false, started := false }
+def Drv.init : Drv :=
+  { g := PB.MicroTasks.init 0, ts := #[], held := none, antic := false, started := false, ms := #[], tm := #[] }
+
+/-- apply one action of the module automaton to module `k` -/
+def mapp (x : Drv) (k : Nat) (a : MAct) : Except String Drv :=
+  match x.ms[k]? with
+  | none => throw s!"unknown module {k}"
+  | some m =>
+    match mstep m a with
+    | some m' => pure { x with ms := x.ms.set! k m' }
+    | none => throw s!"module {k}: {reprStr a} not enabled (cnt={m.cnt} run={m.run} flag={m.flag} done={m.done} st={m.st} sp={m.sp})"
+
+def chkMod (x : Drv) (k : Nat) (v : Int) : Except String Drv :=
+  match x.ms[k]? with
+  | none => throw s!"unknown module {k}"
+  | some m => if m.cnt = v then pure x else throw s!"module {k} counter: implementation {v}, model {m.cnt}"
+
+def modOfTask (x : Drv) (t : Nat) : Except String Nat :=
+  match x.tm[t]? with
+  | some k => pure k
+  | none => throw s!"unknown task {t}"
+
+def parseInts (s : String) : Option (List Int) :=
+  (s.splitOn ",").mapM String.toInt?
 
 def actName (a : Act) : String := (reprStr a)
 
@@ -102,11 +133,21 @@ def taskEv (x : Drv) (t : Nat) (ev : List String) : Except String Drv := do
     if d.pc = 2 ∧ d.req = 1 then app x (.tmoWait p z) me
     else if d.pc = 2 ∧ d.req = 2 then app x (.tmoHeld z) me
     else app x (.tmoLate z) me
-  | ["begin"] => app x (.begin high) me
-  | ["moddec", o] =>
-    match o.toNat? with
-    | some o => appAll x [(.fnRet high o, me), (.modDec high, me)]
+  | ["begin", v] =>
+    match v.toInt? with
+    | some v => do
+      let k ← modOfTask x t
+      let x ← app x (.begin high) me
+      chkMod (← mapp x k .begin) k v
     | none => throw "bad-op"
+  | ["moddec", o, v] =>
+    match o.toNat?, v.toInt? with
+    | some o, some v => do
+      let k ← modOfTask x t
+      let x ← appAll x [(.fnRet high o, me), (.modDec high, me)]
+      chkMod (← mapp x k .modDec) k v
+    | _, _ => throw "bad-op"
+  | ["stopchk"] => app x .stopCheck me
   | ["dec", c] =>
     match c.toInt? with
     | some c => do chkCnt (← app x (.dec high) me) c
@@ -165,23 +206,72 @@ def schedEv (x : Drv) (ev : List String) : Except String Drv := do
   | ["tick"] => app x .wakeTick none
   | _ => throw "bad-op"
 
+def modEv (x : Drv) (k : Nat) (ev : List String) : Except String Drv := do
+  match ev with
+  | ["stop"] => mapp x k .stopBegin
+  | ["flag"] => mapp x k .flagSet
+  | ["mcheck", r] =>
+    -- the check read the stop flag as set and found stop function, workers and tasks done; `r`: did the
+    -- microtask counter pass? The model's answer is `stopCheckMicro` of the module's counter.
+    match x.ms[k]?, r with
+    | some m, "1" | some m, "0" =>
+      if m.flag ≠ 1 then throw s!"module {k}: a stop check got to the microtask counter, in the model the stop flag is not set"
+      else if (PB.Gen.MicroTasks.stopCheckMicro m.cnt) ≠ (r == "1") then
+        throw s!"module {k}: stop check on the microtask counter: implementation {r}, model counter {m.cnt}"
+      else mapp x k (.check true)
+    | none, _ => throw s!"unknown module {k}"
+    | _, _ => throw "bad-op"
+  | ["wake"] => mapp x k .wake
+  | ["timeout", v] =>
+    match v.toInt? with
+    | some v => do chkMod (← mapp x k .timeout) k v
+    | none => throw "bad-op"
+  | ["offline"] => mapp x k .offline
+  | ["start"] => mapp x k .start
+  | _ => throw "bad-op"
+
+def chkMods (x : Drv) (vs : List Int) (what : String) : Except String Unit := do
+  if vs.length ≠ x.ms.size then throw s!"{what}: {vs.length} module counters given, {x.ms.size} modules"
+  for (v, i) in vs.zipIdx do
+    match x.ms[i]? with
+    | some m =>
+      if m.cnt ≠ v then throw s!"{what}: module {i} counter: implementation {v}, model {m.cnt}"
+      if m.run ≠ 0 then throw s!"{what}: module {i} has microtasks running in the model"
+    | none => throw "unknown module"
+
+/-- number of modules of the harness process -/
+def nMods : Nat := 3
+
 def finalPc (d : DSt) : Bool := (d.pc = 9 ∨ d.pc = 10 ∨ d.pc = 11) ∧ (d.req = 0 ∨ d.req = 4 ∨ d.req = 5)
 
 def handle (x : Drv) (line : String) : Except String Drv := do
   match PB.Drv.words line with
   | ["lim", n, f] =>
     match n.toNat?, f with
-    | some n, "0" => pure { Drv.init with g := PB.MicroTasks.init n, started := true }
-    | some n, "1" => pure { Drv.init with g := PB.MicroTasks.initTok n, started := true }
+    | some n, "0" => pure { Drv.init with g := PB.MicroTasks.init n, started := true, ms := Array.replicate nMods MSt.init }
+    | some n, "1" => pure { Drv.init with g := PB.MicroTasks.initTok n, started := true, ms := Array.replicate nMods MSt.init }
     | _, _ => throw "bad-op"
-  | "new" :: [t, cls, var, nilm, zd] =>
-    match t.toNat?, cls.toNat?, var.toNat?, nilm.toNat?, zd.toNat? with
-    | some t, some cls, some var, some nilm, some zd =>
+  | "new" :: [t, cls, var, nilm, zd, md] =>
+    match t.toNat?, cls.toNat?, var.toNat?, nilm.toNat?, zd.toNat?, md.toNat? with
+    | some t, some cls, some var, some nilm, some zd, some md =>
       if !x.started then throw "no lim line"
       else if t ≠ x.ts.size then throw s!"task ids must be consecutive (got {t}, expected {x.ts.size})"
-      else if cls > 2 ∨ var > 2 ∨ nilm > 1 ∨ zd > 1 then throw "bad-op"
-      else pure { x with ts := x.ts.push (DSt.new cls var nilm zd) }
-    | _, _, _, _, _ => throw "bad-op"
+      else if cls > 2 ∨ var > 2 ∨ nilm > 1 ∨ zd > 1 ∨ md ≥ nMods then throw "bad-op"
+      else pure { x with ts := x.ts.push (DSt.new cls var nilm zd), tm := x.tm.push md }
+    | _, _, _, _, _, _ => throw "bad-op"
+  | "m" :: k :: ev =>
+    match k.toNat? with
+    | some k => if x.started then modEv x k ev else throw "no lim line"
+    | none => throw "bad-op"
+  | ["q", c, ms] =>
+    match c.toInt?, parseInts ms with
+    | some c, some vs => do
+      if !x.started then throw "no lim line"
+      if !decide x.g.quiescent then throw "q: model not quiescent"
+      if x.g.cnt ≠ c then throw s!"q: counter: implementation {c}, model {x.g.cnt}"
+      chkMods x vs "q"
+      pure x
+    | _, _ => throw "bad-op"
   | "t" :: t :: ev =>
     match t.toNat? with
     | some t => if x.started then taskEv x t ev else throw "no lim line"
@@ -190,17 +280,18 @@ def handle (x : Drv) (line : String) : Except String Drv := do
   | ["shutdown"] => if x.started then app x .shutdown none else throw "no lim line"
   | "scn" :: _ => pure x      -- the scenario description, for the record
   | "h" :: _ => pure x        -- harness-side observations, read by the monitor only
-  | ["end", c, m] =>
-    match c.toInt?, m.toInt? with
-    | some c, some m =>
+  | ["end", c, m, ms] =>
+    match c.toInt?, m.toInt?, parseInts ms with
+    | some c, some m, some vs => do
       if !x.started then throw "no lim line"
-      else if !decide x.g.quiescent then throw s!"end: model not quiescent"
-      else if x.g.cnt ≠ c then throw s!"end: counter: implementation {c}, model {x.g.cnt}"
-      else if x.g.mods ≠ m then throw s!"end: module counters: implementation {m}, model {x.g.mods}"
-      else match x.ts.toList.findIdx? (fun d => !finalPc d) with
+      if !decide x.g.quiescent then throw s!"end: model not quiescent"
+      if x.g.cnt ≠ c then throw s!"end: counter: implementation {c}, model {x.g.cnt}"
+      if x.g.mods ≠ m then throw s!"end: module counters: implementation {m}, model {x.g.mods}"
+      chkMods x vs "end"
+      match x.ts.toList.findIdx? (fun d => !finalPc d) with
         | some i => throw s!"end: task {i} not finished in the model"
         | none => pure x
-    | _, _ => throw "bad-op"
+    | _, _, _ => throw "bad-op"
   | _ => throw "bad-op"
 
 def stepLine (x : Drv) (line : String) : Drv × String :=
